@@ -474,6 +474,33 @@ Definition active_starts (st : state) : res (list nat) :=
 
 Definition count_matrix (st : state) : matrix * N := (st_motif st, st_count st).
 
+(* ---------- the recomputed count matrix, computed in one pass ---------- *)
+
+(* recompute_motif is the specification (cell by cell, a sum over the sequences); the
+   checkers evaluate [motif_of], which adds the window of every active sequence to a zero
+   matrix in one pass when the three lists have the same length and is the specification
+   otherwise.  SamplerFast.v proves motif_of = recompute_motif. *)
+Definition row_inc (row : list N) (k : nat) : list N := upd k (nth k row 0 + 1) row.
+
+Fixpoint add_window (m : matrix) (syms : list nat) : matrix :=
+  match m, syms with
+  | row :: m', a :: syms' => row_inc row a :: add_window m' syms'
+  | _, _ => m
+  end.
+
+Fixpoint fast_motif_go (W : nat) (data : list seqt) (act : list bool) (starts : list nat) (m : matrix)
+  : matrix :=
+  match data, act, starts with
+  | s :: data', a :: act', st :: starts' =>
+      fast_motif_go W data' act' starts' (if a then add_window m (firstn W (skipn st s)) else m)
+  | _, _, _ => m
+  end.
+
+Definition motif_of (K W : nat) (data : list seqt) (act : list bool) (starts : list nat) : matrix :=
+  if ((length act =? length data)%nat && (length starts =? length data)%nat)%bool
+  then fast_motif_go W data act starts (zero_matrix W K)
+  else recompute_motif K W data act starts.
+
 (* ---------- the property as an executable check of a reported state ---------- *)
 
 Fixpoint list_eqb {A} (e : A -> A -> bool) (a b : list A) : bool :=
@@ -519,7 +546,7 @@ Section Report.
     end.
 
   Definition check_motif (K W : nat) (data : list seqt) (r : report) : bool :=
-    matrix_eqb (r_cm r) (recompute_motif K W data (r_active r) (r_starts r)).
+    matrix_eqb (r_cm r) (motif_of K W data (r_active r) (r_starts r)).
   Definition check_bg (K W : nat) (data : list seqt) (r : report) : bool :=
     opt_bits_eqb (r_bg r) (expected_bg_bits K W data (r_active r) (r_starts r)).
   Definition check_range (W : nat) (data : list seqt) (r : report) : bool :=
@@ -538,7 +565,7 @@ End Report.
 (* the counts reported with an iteration: alignment without z *)
 Definition check_iteration (K W : nat) (data : list seqt) (act : list bool) (starts : list nat)
                            (it : iteration) : bool :=
-  matrix_eqb (it_counts it) (recompute_motif K W data (upd (it_z it) false act) starts)
+  matrix_eqb (it_counts it) (motif_of K W data (upd (it_z it) false act) starts)
   && (it_n it =? count_true (upd (it_z it) false act))
   && (it_z it <? length data)%nat.
 
